@@ -3,6 +3,10 @@ import tops
 from props.c20 import OVERLAY
 
 
+from props.c11 import LinkedList
+from props.c10 import ElasticC
+
+
 class PoolC(tops.Component):
     name = "pool"
     model = "pool"
@@ -18,7 +22,8 @@ class PoolC(tops.Component):
 
 
 def main(tier, replay):
-    return tops.run("C12", [PoolC()], tier,
+    return tops.run("C12", [PoolC(), LinkedList(), ElasticC()], tier,   # the users of the pool: pooled memory that is handed out twice shows as corrupted content there
+                   
                     level_text="invariant proof on a model of the byte-slice pool over abstract memory (Props/C12.lean): Get shape, Put never stores more than the slice owns, stored and outstanding regions pairwise disjoint for all histories and all sync.Pool choices; call-site table regenerated from the source; tie: T-ops with an address ledger and canaries on the real pool (sync.Pool's choices are inputs of the model)",
                     assumptions=["sync.Pool returns only pointers that were Put (or nothing); GC may drop stored pointers",
                                  "caller discipline: a slice is Put at most once and not used afterwards - audited per call site (Props/C12.lean table), not proved about Go"],
